@@ -9,7 +9,8 @@ from ctparse.corpus import parse_nb_string
 
 LEVEL = "exploration"
 T = qa.T
-YS, MS, DS, HS, MIS, WS, PS = [None, 1, 2018, 9999], [None, 1, 12], [None, 1, 31], [None, 0, 23], [None, 0, 59], [None, 0, 6], [None, "morning", "lateevening"]
+# full field ranges, not only real calendar dates: the text form must round-trip 2021-02-29 or 2023-04-31 as well
+YS, MS, DS, HS, MIS, WS, PS = [None, 1, 2018, 2021, 9999], [None, 1, 2, 4, 12], [None, 1, 29, 30, 31], [None, 0, 23], [None, 0, 59], [None, 0, 6], [None, "morning", "lateevening"]
 FIELDS = [("year", YS), ("month", MS), ("day", DS), ("hour", HS), ("minute", MIS), ("DOW", WS), ("POD", PS)]
 
 
